@@ -3,6 +3,8 @@ import Driver.SchemaJson
 import Driver.SValJson
 import Driver.ArrJson
 import Driver.Suites.Build
+import Driver.Suites.Hist
+import SaModel.Build.Guarded
 import SaModel.Backend.Adapters
 import SaModel.Backend.BuildCore
 import SaModel.Backend.History
@@ -455,10 +457,245 @@ def handle (j : Json) : Except String Verdict := do
           agreeSig := s!"C19/model/read-count-mismatch/{k}/model={model.cls}"
           agreeWhy := s!"{k}: the reader model gives {model.cls}, the implementation {v.compress}"
     | _ => pure ()
+  -- ---- the TOP-LEVEL `items` value in another form (`top`): the same rows as a sequence without / with a lying length
+  -- hint, tuple, tuple struct, newtype struct / variant, tuple variant, Some(seq), unit, map, struct, scalar … given to
+  -- every one-shot entry point, to the Serializer wrapper (borrowed / owned builder) and to `ArrayBuilder::extend`.
+  --   C19: the one-shot functions and the Serializer wrapper agree with each other across the back ends — same
+  --        accept / refuse (outside the documented type gaps), the same logical content;
+  --   C10: where a form is accepted, the arrays are PHYSICALLY those of the plain sequence of the same rows (wrapper,
+  --        extend and one-shot functions produce identical arrays for the same rows); a value that is no collection of
+  --        records is refused;
+  --   agree: `Build.serializeWith` (the strict `Serializer` of serializer.rs) and `Build.extend` (`OuterSequenceBuilder`
+  --        as a serializer) predict class, arrays and error position per form.
+  let mut c10 := "pass"
+  let mut c10Sig := ""
+  let mut c10Why := ""
+  let mut c03 := "pass"
+  let mut c03Sig := ""
+  let mut c03Why := ""
+  let mut c16Sig := ""
+  let mut c16Why := ""
+  let topOut := get j "top_out"
+  match (getStr j "top").toOption with
+  | none => pure ()
+  | some form =>
+    let v := Driver.Suites.Hist.wrapRows form rows
+    tags := s!"top:{form}" :: tags
+    let serForms := ["seq_nohint", "seq_lying", "tuple", "tuple_lying", "tuple_struct", "newtype_struct", "newtype_variant",
+      "tuple_variant", "nested", "newtype_variant_tuple_variant"]
+    let extForms := ["seq_nohint", "seq_lying", "tuple", "tuple_lying", "tuple_struct", "newtype_struct", "some", "some_tuple", "some_some"]
+    let tm := get topOut "marrow"
+    let tmcls := pathCls tm
+    let tmarrs ← if tmcls == "ok" then arraysOf tm else pure []
+    for (n, dst) in [("marrow", "marrow"), ("arrow", "arrow"), ("batch", "arrow"), ("arrow2", "arrow2"), ("ser", "marrow"), ("ser_owned", "marrow"), ("extend", "marrow")] do
+      let o := get topOut n
+      let cls := pathCls o
+      let gaps := (fields.flatMap (fieldGaps dst)).eraseDups
+      let accepted := if n == "extend" then extForms.contains form else serForms.contains form
+      -- C19: agreement with to_marrow on the same value (`extend` is another front end: compared with the plain sequence below)
+      if n != "extend" && n != "marrow" then
+        if cls == "field_err" then pure ()       -- reported by the main paths
+        else if cls == tmcls then
+          if cls == "ok" then
+            let arrs ← arraysOf o
+            checkedArrays := checkedArrays + arrs.length
+            match contentEq tmarrs arrs with
+            | none => pure ()
+            | some col =>
+              if specSig == "" then
+                specSig := s!"C19/top/{form}/content/{n}/{(fields[col]?.map (·.dataType.ctor)).getD "count"}"
+                specWhy := s!"top-level {form} through {n}: column {col} does not decode to the logical content of the to_marrow array"
+        else if tmcls == "ok" && (cls == "err" || cls == "view_err") && !gaps.isEmpty then
+          tags := s!"gap:{gaps.headD ""}" :: tags
+        else if specSig == "" then
+          specSig := s!"C19/top/{form}/outcome/{n}={cls}/marrow={tmcls}"
+          specWhy := s!"top-level {form}: {n} gives {cls} where to_marrow gives {tmcls}: {(o.compress.take 300)}"
+      -- C10: an accepted form gives the arrays of the plain sequence; a value that is no collection is refused
+      if cls == "panic" then pure ()             -- C16
+      else if cls == "field_err" || (dst != "marrow" && !gaps.isEmpty) then pure ()
+      else if accepted then
+        let plain := get ser (if n == "ser" || n == "ser_owned" || n == "extend" then "marrow" else n)
+        let pcls := pathCls plain
+        if cls != pcls then
+          if c10Sig == "" then
+            c10 := "fail"
+            c10Sig := s!"C10/top/{form}/{n}={cls}/plain-seq={pcls}"
+            c10Why := s!"top-level {form} through {n}: {cls}, the same rows as a plain sequence: {pcls}"
+        else if cls == "ok" then
+          let a ← arraysOf o
+          let b ← arraysOf plain
+          if a != b && c10Sig == "" then
+            c10 := "fail"
+            c10Sig := s!"C10/top/{form}/{n}/arrays-differ-from-plain-seq"
+            c10Why := s!"top-level {form} through {n}: the arrays are not those of the same rows given as a plain sequence"
+      else if cls != "err" && cls != "view_err" then
+        if c10Sig == "" then
+          c10 := "fail"
+          c10Sig := s!"C10/top/{form}/{n}={cls}/not-a-collection-accepted"
+          c10Why := s!"top-level {form} (not a collection of records for this front end) through {n}: {cls}"
+    -- the model
+    match newRoot fields with
+    | .error _ => pure ()
+    | .ok root0 =>
+      for (n, isExt) in [("marrow", false), ("ser", false), ("ser_owned", false), ("extend", true)] do
+        let o := get topOut n
+        let cls := pathCls o
+        let model : R (List Arr) := do
+          let r ← (if isExt then extend ext root0 v else serializeWith ext root0 v)
+          let (arrs, _) ← buildArrays ext r
+          pure arrs
+        if model.cls != cls then
+          if agreeSig == "" then
+            agreeSig := s!"C19/top-model/{form}/{n}/model={model.cls}/impl={cls}"
+            agreeWhy := s!"top-level {form} through {n}: model {model.cls} {repr model.ann}, implementation {(o.compress.take 200)}"
+        else
+          match model with
+          | .ok marr =>
+            let iarr ← arraysOf o
+            if marr != iarr && (contentEq marr iarr).isSome && agreeSig == "" then
+              agreeSig := s!"C19/top-model/{form}/{n}/content"
+              agreeWhy := s!"top-level {form} through {n}: model and implementation hold different logical content"
+          | .error _ =>
+            let ia := annOfImpl (get o "err")
+            if !model.ann.isEmpty && ia != model.ann && agreeSig == "" then
+              agreeSig := s!"C19/top-model/{form}/{n}/ann"
+              agreeWhy := s!"top-level {form} through {n}: annotations: model {repr model.ann}, implementation {repr ia}"
+  -- ---- USE AFTER A FAILED OPERATION: one builder per finisher, the rows pushed one by one with a record the builder
+  -- refuses in the middle, a build, another push, another build; every outcome recorded (`fail_hist`).
+  --   C16: nothing panics after a failed push;  C03: every build that returns arrays returns well-formed ones of ONE
+  --   length, the number of rows pushed successfully since the previous successful build;  C10: no build succeeds on a
+  --   builder in which a push failed;  C19: the four finishers agree operation by operation;
+  --   agree: `Backend.runHistoryG` (the builder with its poisoned flag) predicts every outcome.
+  match getOpt j "fail_hist" with
+  | some (.arr fhs) =>
+    let bad := getOpt j "bad"
+    let badAt := ((get j "bad_at").getNat?).toOption.getD 0
+    let badRow : Option SVal := match bad with
+      | some b => if b.isNull then none else (svalOfJson b).toOption
+      | none => none
+    let adds : List SVal := match badRow with
+      | some b => rows.take badAt ++ [b] ++ rows.drop badAt
+      | none => rows
+    if badRow.isSome then tags := "fail-hist:bad-row" :: tags
+    let mut marrowOuts : List Json := []
+    for fh in fhs.toList do
+      let to ← getStr fh "to"
+      let fin : Backend.Finisher :=
+        if to == "marrow" then .marrow else if to == "arrow" then .arrow else if to == "batch" then .recordBatch else .arrow2
+      let dst := family to
+      let gaps := (fields.flatMap (fieldGaps dst)).eraseDups
+      match get fh "outs" with
+      | .arr outs =>
+        let outs := outs.toList
+        if to == "marrow" then marrowOuts := outs
+        if hasPanic (Json.arr outs.toArray) then
+          -- a panic AFTER a failed push is the finding of this check; one in a history without a failure is the
+          -- finisher's own (third-party code on a degenerate type: the signature of the recorded findings)
+          let firstBad := outs.findIdx? (fun o => pathCls o != "ok")
+          let firstPanic := outs.findIdx? hasPanic
+          let afterFailure : Bool := match firstBad, firstPanic with | some b, some p => decide (b < p) | _, _ => false
+          if afterFailure then
+            if c16Sig == "" then
+              c16Sig := s!"C16/panic-after-failed-push/{to}"
+              c16Why := s!"history through to_{to}: {((Json.arr outs.toArray).compress.take 400)}"
+          else if specSig == "" then
+            specSig := s!"C19/outcome/{to}=panic/marrow=ok/{culpritOf dst}"
+            specWhy := s!"history through to_{to}: {((Json.arr outs.toArray).compress.take 400)}"
+        let hops : List (Backend.HOp (List SVal)) :=
+          adds.map (fun r => .add [r]) ++ [.finish fin] ++ (rows.head?.map fun r => Backend.HOp.add [r]).toList ++ [.finish fin]
+        -- spec side, on the implementation's outcomes alone
+        let mut okRows := 0
+        let mut dirty := false
+        let mut k := 0
+        for o in outs do
+          let cls := pathCls o
+          let isFinish := match hops[k]? with | some (.finish _) => true | _ => false
+          if isFinish then
+            if cls == "ok" then
+              let arrs ← arraysOf o
+              if dirty && c10Sig == "" then
+                c10 := "fail"
+                c10Sig := s!"C10/build-after-failed-push/{to}"
+                c10Why := s!"to_{to} succeeds on a builder in which an earlier push failed (op #{k})"
+              let lens := arrs.map fun a => (decodeAll a).length
+              let wf := arrs.length == fields.length && lens.all (· == okRows) &&
+                (to != "marrow" || fields.any hasFsb0 || (fields.zip arrs).all fun (f, a) => SaModel.Spec.WF f a)
+              if !wf && c03Sig == "" then
+                c03 := "fail"
+                c03Sig := s!"C03/after-failed-push/{to}/{if arrs.length != fields.length then "count" else if !lens.all (· == okRows) then "lengths" else "not-wf"}"
+                c03Why := s!"to_{to} (op #{k}) after {okRows} successful pushes returns arrays of lengths {repr lens}"
+              okRows := 0
+            else if cls == "err" && !gaps.isEmpty then
+              okRows := 0          -- a conversion refused a gap type: the builder has been reset
+            else if cls == "err" || cls == "view_err" then
+              -- (a finisher may fail after build_arrays: then the builder is empty again; or inside it: then it is unusable)
+              okRows := 0
+          else
+            if cls == "ok" then okRows := okRows + 1 else dirty := true
+          k := k + 1
+        -- C19: operation by operation as through to_marrow
+        if to != "marrow" && marrowOuts.length == outs.length then
+          let mut k2 := 0
+          for (o, m) in outs.zip marrowOuts do
+            let cls := pathCls o
+            let mc := pathCls m
+            if cls == mc then
+              if cls == "ok" && (hops[k2]?.bind Backend.HOp.finisher?).isSome then
+                let a ← arraysOf o
+                let b ← arraysOf m
+                checkedArrays := checkedArrays + a.length
+                if (contentEq b a).isSome && specSig == "" then
+                  specSig := s!"C19/after-failed-push/content/{to}"
+                  specWhy := s!"history through to_{to}, op #{k2}: content differs from the same history through to_marrow"
+            else if mc == "ok" && (cls == "err" || cls == "view_err") && !gaps.isEmpty then pure ()
+            else if specSig == "" then
+              specSig := s!"C19/after-failed-push/outcome/{to}={cls}/marrow={mc}"
+              specWhy := s!"history through to_{to}, op #{k2}: {cls} where the same history through to_marrow gives {mc}: {(o.compress.take 300)}"
+            k2 := k2 + 1
+        -- the model
+        let mk : R (Backend.ArrayBuilder B) :=
+          if to == "marrow" then Backend.ArrayBuilder.fromMarrow core fields
+          else if to == "arrow2" then Backend.ArrayBuilder.fromArrow2 core (wireConv "arrow2") fields
+          else Backend.ArrayBuilder.fromArrow core (wireConv "arrow") fields
+        match mk with
+        | .error _ =>
+          -- (a type the back end does not offer: the gap table refuses the field where marrow refuses only the array)
+          if !gaps.isEmpty then tags := s!"gap:{gaps.headD ""}" :: tags
+          else if agreeSig == "" then
+            agreeSig := s!"C19/model/fail-hist/{to}/builder"
+            agreeWhy := "the model refuses to make the builder the implementation made"
+        | .ok b =>
+          let (mouts, _) := Backend.runHistoryG core (fun _ => .ok ()) (wireConv "arrow") (wireConv "arrow2") (fun _ _ => .ok ())
+            (Backend.GBuilder.clean b) hops
+          tags := "fail-hist-model" :: tags
+          let mut k3 := 0
+          for (o, m) in outs.zip mouts do
+            let icls := pathCls o
+            let icls' := if icls == "field_err" || icls == "view_err" then "err" else icls
+            if m.cls != icls' then
+              if agreeSig == "" then
+                agreeSig := s!"C19/model/fail-hist/{to}/op-model={m.cls}/impl={icls}"
+                agreeWhy := s!"history through to_{to}, op #{k3}: the history model gives {m.cls} {repr m.ann}, the implementation {(o.compress.take 200)}"
+            else
+              match m with
+              | .ok (some built) =>
+                let marr : List Arr := match built with
+                  | .marrow a => a | .arrow a => a | .arrow2 a => a | .recordBatch rb => rb.columns
+                let iarr ← arraysOf o
+                if (contentEq marr iarr).isSome && agreeSig == "" then
+                  agreeSig := s!"C19/model/fail-hist/{to}/content"
+                  agreeWhy := s!"history through to_{to}, op #{k3}: model and implementation hold different content"
+              | _ => pure ()
+            k3 := k3 + 1
+          if mouts.any (fun m => !m.isOk) then tags := "fail-hist:failure" :: tags
+      | _ => pure ()
+  | _ => pure ()
   tags := s!"arrays:{if checkedArrays == 0 then "0" else "+"}" :: tags
+  let c16 := if c16Sig != "" then "fail" else c16
   let c19 := if specSig != "" then "fail" else "pass"
-  return { agree := agreeSig == "", spec := [("C19", c19), ("C16", c16)],
-           sig := if specSig != "" then specSig else agreeSig,
-           tags := tags.eraseDups, why := if specSig != "" then specWhy else agreeWhy }
+  let sig := if c16Sig != "" then c16Sig else if specSig != "" then specSig else if c10Sig != "" then c10Sig else if c03Sig != "" then c03Sig else agreeSig
+  let why := if c16Sig != "" then c16Why else if specSig != "" then specWhy else if c10Sig != "" then c10Why else if c03Sig != "" then c03Why else agreeWhy
+  return { agree := agreeSig == "", spec := [("C19", c19), ("C16", c16), ("C10", c10), ("C03", c03)],
+           sig := sig, tags := tags.eraseDups, why := why }
 
 end Driver.Suites.Backend
